@@ -498,7 +498,7 @@ def _e7_walk(prog, f, br, succ, aliases, zero, neg=(), cap=3000):
         t = b.term
         if t.op == "ret":
             if t.ops:
-                res.append((resolve(t.ops[0], path), t))
+                res.append((resolve(t.ops[0], path), t, path))
             return
         nxt = list(b.succs)
         if t.op == "br" and len(t.x["succ"]) == 2:
@@ -584,7 +584,7 @@ def rule_e7(chk, prog, em, tool, seen):
             inst = "%s:%s@%d" % (f.name, what, c.line)
             zero = _e7_zero_known(f, br.bb) - {id(c)}
             bad = None
-            for (v, r) in _e7_walk(prog, f, br, succ, aliases, zero, neg):
+            for (v, r, _p) in _e7_walk(prog, f, br, succ, aliases, zero, neg):
                 if (v.is_const and v.is_int and v.sval == 0) or id(v) in zero:
                     bad = (v, r)
                     break
@@ -837,6 +837,180 @@ def nonnull_guarded(f, bb, aliases, use=None):
     return False
 
 
+UNLINKERS = {"unlink", "remove", "unlinkat", "DeleteFileW"}
+O_CREAT = 0o100
+
+
+def _may_have_bit(v, bit, depth=0):
+    while v.is_inst and v.op in ("zext", "sext", "trunc"):
+        v = v.ops[0]
+    if v.is_const:
+        return bool(v.is_int and (v.uval & bit))
+    if depth > 6:
+        return True
+    if v.is_inst and v.op == "phi":
+        return any(_may_have_bit(o, bit, depth + 1) for o in v.ops if o is not v)
+    if v.is_inst and v.op == "select":
+        return any(_may_have_bit(o, bit, depth + 1) for o in v.ops[1:])
+    if v.is_inst and v.op == "or":
+        return any(_may_have_bit(o, bit, depth + 1) for o in v.ops)
+    return True
+
+
+def _always_has_bit(v, mask, depth=0):
+    while v is not None and v.is_inst and v.op in ("zext", "sext", "trunc"):
+        v = v.ops[0]
+    if v is None:
+        return False
+    if v.is_const:
+        return bool(v.is_int and (v.uval & mask))
+    if depth < 4 and v.is_inst and v.op == "or":
+        return any(_always_has_bit(o, mask, depth + 1) for o in v.ops)
+    if depth < 4 and v.is_inst and v.op in ("phi", "select"):
+        ops = v.ops[1:] if v.op == "select" else [o for o in v.ops if o is not v]
+        return bool(ops) and all(_always_has_bit(o, mask, depth + 1) for o in ops)
+    return False
+
+
+def _readonly_gate(f, flagsop):
+    """(param index, mask): the open mode without O_CREAT is chosen exactly when  param & mask  is set"""
+    v = flagsop
+    while v.is_inst and v.op in ("zext", "sext", "trunc"):
+        v = v.ops[0]
+    if not (v.is_inst and v.op == "phi"):
+        return None
+    for val, pred in zip(v.ops, v.x["inc"]):
+        if val.is_const and val.is_int and not (val.uval & O_CREAT):
+            facts = list(f.guards_at(pred))
+            for (cond, outcome, br) in facts:
+                if not (cond.is_inst and cond.op == "icmp" and cond.pred in ("eq", "ne") and outcome in (True, False)):
+                    continue
+                a, z = cond.ops
+                if not (z.is_const and z.is_int and z.sval == 0):
+                    continue
+                a = strip_casts(a)
+                if a.is_inst and a.op == "and" and outcome == (cond.pred == "ne"):
+                    for x, m in ((a.ops[0], a.ops[1]), (a.ops[1], a.ops[0])):
+                        if m.is_const and m.is_int and strip_casts(x).is_arg:
+                            return (strip_casts(x).idx, m.uval)
+    return None
+
+
+def rule_created_unlinked(chk, prog, tool):
+    """K1-cleanup created-unlinked: from the system call that creates the output file upwards, no function reports a
+    failure after the file came into existence without removing it.  Creators are found structurally: a function that
+    calls open() with O_CREAT possible, then every function that returns success after a creator succeeded."""
+    unl_fns = set()
+    changed = True
+    while changed:
+        changed = False
+        for f in prog.functions():
+            if f in unl_fns or f.decl:
+                continue
+            for c in f.calls():
+                nm = norm_callee(c.callee)
+                ts, _ok = prog.call_targets(c) if nm not in UNLINKERS else ((), True)
+                if nm in UNLINKERS or any((not isinstance(t, ExternFn)) and t in unl_fns for t in ts):
+                    unl_fns.add(f)
+                    changed = True
+                    break
+
+    def is_unlinker_call(i):
+        if i.op != "call":
+            return False
+        if norm_callee(i.callee) in UNLINKERS:
+            return True
+        ts, _ok = prog.call_targets(i)
+        return any((not isinstance(t, ExternFn)) and t in unl_fns for t in ts)
+
+    creators = {}      # function -> gate (param idx, mask) or None
+    for f in prog.functions():
+        for c in f.calls():
+            nm = norm_callee(c.callee)
+            if nm in ("open", "open64") and len(c.ops) >= 2 and _may_have_bit(c.ops[1], O_CREAT):
+                creators[f] = _readonly_gate(f, c.ops[1])
+    if not creators:
+        chk.broke("no function that creates a file with open(O_CREAT) found in %s" % tool)
+        return
+    n = 0
+    pending = []
+    work = list(creators)
+    done = set()
+    while work:
+        K = work.pop()
+        if K in done:
+            continue
+        done.add(K)
+        gate = creators[K]
+        for c in prog.callers_of(K):
+            G = c.fn
+            G.build()
+            ggate = None
+            if gate is not None:
+                arg = c.ops[gate[0]] if gate[0] < len(c.ops) else None
+                a = arg
+                while a is not None and a.is_inst and a.op in ("zext", "sext", "trunc"):
+                    a = a.ops[0]
+                if _always_has_bit(arg, gate[1]):
+                    continue                      # opened read-only: nothing is created
+                if a is not None and a.is_arg:
+                    ggate = (a.idx, gate[1])
+            if G.name == "main":
+                continue                          # main's exits are the business of the cleanup rules above
+            # success edges of the call
+            edges = []
+            for u in G.uses.get(c, []):
+                if u.op == "icmp" and u.ops[1].is_const and u.ops[1].is_int and u.ops[1].sval == 0 and u.pred in ("eq", "ne"):
+                    for br in G.uses.get(u, []):
+                        if br.op == "br" and len(br.x["succ"]) == 2:
+                            edges.append((br, br.x["succ"][0] if u.pred == "eq" else br.x["succ"][1]))
+            if not edges:
+                continue                          # result handed on unchanged: G adds nothing of its own
+            n += 1
+            chk.analysed(G)
+            inst = "%s:created-unlinked:%s->%s" % (tool, G.name, K.name)
+            bad = None
+            succeeds = False
+            for (br, succ) in edges:
+                zero = _e7_zero_known(G, br.bb) | {id(c)}
+                for (v, r, path) in _e7_walk(prog, G, br, succ, [], zero):
+                    is_zero = (v.is_const and v.is_int and v.sval == 0) or id(v) in zero
+                    if is_zero:
+                        succeeds = True
+                        continue
+                    if v.is_const and v.is_null:
+                        pass
+                    if any(is_unlinker_call(i) for b in path[1:] for i in b.insts):
+                        continue
+                    bad = r
+                    break
+                if bad is not None:
+                    break
+            if succeeds and G not in creators:
+                creators[G] = ggate
+                work.append(G)
+            if bad is None:
+                chk.ok("K1-cleanup", inst, c, "every failing exit after the file was created passes an unlink")
+            else:
+                pending.append((G, ggate, inst, c, bad, K))
+    for (G, ggate, inst, c, bad, K) in pending:
+        live = ggate is None
+        if not live:
+            for cs in prog.callers_of(G):
+                a = cs.ops[ggate[0]] if ggate[0] < len(cs.ops) else None
+                while a is not None and a.is_inst and a.op in ("zext", "sext", "trunc"):
+                    a = a.ops[0]
+                if not _always_has_bit(a, ggate[1]):
+                    live = True
+        if live:
+            chk.violation("K1-cleanup", inst, bad, "%s can fail (return at line %d) after %s has created the output file, "
+                          "without removing it: the caller takes the failure for 'nothing was created' and an empty or "
+                          "partial image is left behind" % (G.name, bad.line, K.name))
+        else:
+            chk.ok("K1-cleanup", inst, c, "not called with creating flags in this tool: nothing is created", nontrivial=False)
+    return n
+
+
 def rule_cleanup(chk, prog, tool):
     """C13-d: the packers remove their output unless finish succeeded; exit status 0 only on the success edge"""
     main = None
@@ -927,41 +1101,7 @@ def rule_cleanup(chk, prog, tool):
             chk.ok("K1-cleanup", "%s:cleanup-unlinks" % tool, un[0], "the output file is unlinked whenever status != EXIT_SUCCESS")
         else:
             chk.violation("K1-cleanup", "%s:cleanup-unlinks" % tool, g, "sqfs_writer_cleanup does not unlink the output on failure")
-        # a failing sqfs_writer_init removes the file it created
-        ini = prog.need_fn("sqfs_writer_init")
-        ini.build()
-        chk.analysed(ini)
-        opens = [c for c in ini.calls() if norm_callee(c.callee) == "sqfs_file_open"]
-        if not opens:
-            chk.broke("sqfs_writer_init no longer opens the output with sqfs_file_open")
-        else:
-            op = opens[0]
-            ok_edge = None
-            for u in ini.uses.get(op, []):
-                if u.op == "icmp":
-                    for br in ini.uses.get(u, []):
-                        if br.op == "br" and len(br.x["succ"]) == 2:
-                            ok_edge = br.x["succ"][1] if u.pred == "ne" else br.x["succ"][0]
-            fail_blocks = {b for (v, b) in ret_sources(ini) if not (strip_casts(v).is_const and strip_casts(v).is_int and strip_casts(v).sval == 0)}
-            unl = {c.bb for c in ini.calls() if norm_callee(c.callee) in ("unlink", "remove", "unlinkat", "DeleteFileW")}
-            bad = None
-            seen_b, stack = set(), [ok_edge] if ok_edge is not None else []
-            while stack:
-                b = stack.pop()
-                if b in seen_b or b in unl:
-                    continue
-                seen_b.add(b)
-                if b in fail_blocks or (b.term.op == "ret" and any(fb is b for fb in fail_blocks)):
-                    bad = b
-                    break
-                stack.extend(b.succs)
-            if ok_edge is None:
-                chk.violation("K1-cleanup", "%s:init-unlinks" % tool, op, "the result of opening the output file is not tested")
-            elif bad is None:
-                chk.ok("K1-cleanup", "%s:init-unlinks" % tool, op, "every failing exit of sqfs_writer_init after the output file was created passes an unlink")
-            else:
-                chk.violation("K1-cleanup", "%s:init-unlinks" % tool, bad.term, "sqfs_writer_init can fail after it created the output file "
-                              "without removing it (main does not call sqfs_writer_cleanup when init fails): an empty or partial image is left behind")
+        rule_created_unlinked(chk, prog, tool)
         # the working directory is the one the output name is relative to when cleanup runs
         for g2 in prog.functions():
             if g2.decl or not g2.unit.src.startswith("bin/%s/" % tool):
